@@ -1168,7 +1168,11 @@ impl TryFrom<&mut Peekable<Lexer>> for ParserNode {
                                         next_node,
                                     )));
                                 };
-                                let next = next?;
+                                // What cannot be lexed (a macro parameter) is
+                                // part of the skipped body
+                                let Ok(next) = next else {
+                                    continue;
+                                };
                                 if let TokenType::Directive(dir2) = next.token_type() {
                                     if let Ok(new_dir) = DirectiveToken::from_str(dir2) {
                                         if new_dir == DirectiveToken::EndMacro {
